@@ -603,7 +603,17 @@ class CtlSim:
                 self.violate("C18", "no_handshake_reply", f"client {c.label}: no reply to the handshake")
                 continue
             replies = c.replies()
-            n_lines = len(c.lines)
+            lines = c.lines
+            blank = next((i for i, ln in enumerate(lines) if not ln.strip()), None)
+            if blank is not None:
+                # a blank line ends the session by design; the property quantifies over non-blank lines
+                lines = lines[:blank]
+                self.stats["probe:blank_line_ended_session"] += 1
+                if len(replies) > len(lines):
+                    self.violate("C18", "too_many_replies", f"client {c.label}: {len(replies)} replies for {len(lines)} lines")
+                elif len(replies) == len(lines):
+                    continue
+            n_lines = len(lines)
             if c.gone:
                 if len(replies) > n_lines:
                     self.violate("C18", "too_many_replies", f"client {c.label}: {len(replies)} replies for {n_lines} lines")
@@ -611,11 +621,11 @@ class CtlSim:
             if len(replies) > n_lines:
                 self.violate("C18", "too_many_replies", f"client {c.label}: {len(replies)} replies for {n_lines} lines")
             elif len(replies) < n_lines:
-                nxt = c.lines[len(replies)].strip().split(" ")[0]
+                nxt = lines[len(replies)].strip().split(" ")[0]
                 if nxt in BLOCKING and self._wait_not_over(nxt):
                     self.stats["probe:blocking_command_pending"] += 1
                 else:
-                    self.violate("C18", "missing_reply", f"client {c.label}: {len(replies)} replies for {n_lines} lines; unanswered: {c.lines[len(replies)]!r}")
+                    self.violate("C18", "missing_reply", f"client {c.label}: {len(replies)} replies for {n_lines} lines; unanswered: {lines[len(replies)]!r}")
             # the client must have received exactly what the server wrote
             if not c.ct._stalled and bytes(c.recv) != b"".join(writes) and not c.lost_exc:
                 self.violate("C18", "stream_mismatch", f"client {c.label}: received bytes differ from what the server wrote")
@@ -624,7 +634,8 @@ class CtlSim:
         live = sum(1 for r in self.invocations if r["state"] == "live")
         if cmd == "until-closed":
             return not self.pool_closed()
-        return live > 0 or self.pool.num_running > 0
+        # a spawner may be waiting for room (e.g. after 'pool-size 0'): the wait is legitimately not over
+        return live > 0 or self.pool.num_running > 0 or self.pool.is_full
 
     def pool_closed(self):
         """Closed == some gather-and-close has been answered with ok (or a direct call returned)."""
